@@ -53,6 +53,7 @@ fn main() {
         "C10" => main_for::<props::c10::C10>(rest),
         "C11" => main_for::<props::c11::C11>(rest),
         "C12" => main_for::<props::c12::C12>(rest),
+        "C13" => main_for::<props::c13::C13>(rest),
         "C14" => main_for::<props::c14::C14>(rest),
         "C15" => main_for::<props::c15::C15>(rest),
         "C16" => main_for::<props::c16::C16>(rest),
